@@ -26,7 +26,7 @@ CONSTANTS
 INVARIANTS %(inv)s
 CHECK_DEADLOCK FALSE
 """
-LIB_INV = "TypeOK CarriesConfigured LimitsEnforced HandlersTransparent ReuseTransparent BodyNotLimited NoOtherLimit ConcurrencyBounded IdlePerHostKept"
+LIB_INV = "TypeOK CarriesConfigured LimitsEnforced HandlersTransparent ReuseTransparent BodyNotLimited DialBounded InformationalTransparent NoOtherLimit ConcurrencyBounded IdlePerHostKept"
 
 
 def cfg(spec, n, bug=False, extra="none", late=False, inv=LIB_INV, hdev="none"):
@@ -103,9 +103,12 @@ def run(ctx):
                                 ("HandlerDeviation=expectwait", dict(hdev="expectwait"), "Spec", "HandlersTransparent"),
                                 ("HandlerDeviation=retryreused", dict(hdev="retryreused"), "Spec", "ReuseTransparent"),
                                 ("HandlerDeviation=bodydeadline", dict(hdev="bodydeadline"), "Spec", "BodyNotLimited"),
+                                ("HandlerDeviation=wraperror", dict(hdev="wraperror"), "Spec", "HandlersTransparent"),
+                                ("HandlerDeviation=redial", dict(hdev="redial"), "Spec", "DialBounded"),
+                                ("HandlerDeviation=firststatus", dict(hdev="firststatus"), "Spec", "InformationalTransparent"),
                                 ("LateSetConfig", dict(late=True), "MainSpec", "MainCarries"))
     if not ctx.thorough:    # quick: three of them, rotating with the seed (each costs a JVM start)
-        deviations = tuple(deviations[(ctx.seed + i) % len(deviations)] for i in (0, 3, 6))
+        deviations = tuple(deviations[(ctx.seed + i) % len(deviations)] for i in (0, 4, 8))
     for name, kw, spec, inv in deviations:
         r = ctx.tlc("Transport_MC", cfg_text=cfg(spec, 3, inv=inv, **kw), workers=1, timeout=300)
         if r.violated != inv:
@@ -160,6 +163,8 @@ def run(ctx):
     if s2.get("unstable") or s2.get("conc_unstable") or s2.get("binary_unstable"):
         ctx.inconclusive("behaviour: the test process kept stalling while the requests were measured (%s)"
                          % [n.get("msg") for n in r2.of_kind("note")][:3])
+    if s2.get("dial_skipped"):
+        ctx.inconclusive("behaviour: the accept queue of a listener could not be saturated here: the dial timeout was not exercised through the proxy")
     if not s2.get("binary_ran"):
         ctx.inconclusive("binary: the built fabio was not exercised")
     ctx.cover(traces_validated_against_impl=s2["cases"] + s2["conc_cases"] + (1 if s2.get("binary_ran") else 0),
